@@ -461,6 +461,72 @@ func (a *attacker) next() (hostile, bool) {
 	}
 }
 
+// pingOf extracts the ping header of a frame the victim sent.
+func pingOf(d []byte) (router.PingHeader, frame.MessageType, bool) {
+	var h router.PingHeader
+	if len(d) < 52 {
+		return h, 0, false
+	}
+	mi := 49 + int(d[48])
+	if len(d) < mi+4 {
+		return h, 0, false
+	}
+	ml := int(d[mi])<<8 | int(d[mi+1])
+	msg := d[mi+2 : min(len(d), mi+2+ml)]
+	if len(msg) < 3 || int(msg[1])+2 > len(msg) {
+		return h, 0, false
+	}
+	if cbor.Unmarshal(msg[2:2+int(msg[1])], &h) != nil {
+		return h, 0, false
+	}
+	return h, frame.MessageType(d[4]), true
+}
+
+// answers builds 1..3 follow-ups to a request of the victim: genuine, repeated (separately signed) and hostile.
+func (a *attacker) answers(req router.PingHeader, mt frame.MessageType) []hostile {
+	r := a.r
+	id := a.inst.IdentityV
+	var out []hostile
+	n := 1 + r.IntN(3)
+	for k := 0; k < n; k++ {
+		hdr := router.PingHeader{PingID: req.PingID, PingType: req.PingType, FollowUp: true, AddrHash: id.Hash, KeyType: id.Type, PublicKey: id.PublicKey}
+		hd, _ := cbor.Marshal(&hdr)
+		var body []byte
+		op := "answer-" + req.PingType
+		switch {
+		case r.IntN(4) == 0:
+			body = a.randCBOR()
+			op += "-hostile-body"
+		case req.PingType == "pong":
+			body, _ = cbor.Marshal(map[string]string{"msg": "pong"})
+		case req.PingType == "hello":
+			kx := core.RandBytes(r, 32)
+			if s := a.inst.StateV.GetSession(a.vIP); s != nil && r.IntN(2) == 0 {
+				if k2, _, err := s.Encryption().InitKeyClientStart(); err == nil {
+					kx = k2
+				}
+			}
+			body, _ = cbor.Marshal(&router.HelloPingResponse{KeyExchange: kx, KeyExchangeType: "ECDH-X25519/BLAKE3", MTU: 1400})
+		default:
+			body = a.randCBOR()
+		}
+		if k > 0 {
+			op += "-repeated"
+		}
+		msg := append(append([]byte{1, byte(len(hd))}, hd...), body...)
+		dst := a.vIP
+		if mt == frame.RouterHopPing || mt == frame.RouterHopPingDeprecated {
+			dst = m.RouterAddress
+		}
+		if h, ok := a.sealed(mt, dst, nil, msg, nil, op); ok {
+			h.ptype = req.PingType
+			out = append(out, h)
+		}
+		time.Sleep(1100 * time.Microsecond) // separately signed: later timestamps
+	}
+	return out
+}
+
 // ---------- (d) synchronous part: vmesh victim, exact attribution
 
 func syncVictim(res *core.Result, r *rand.Rand, nFrames int) {
@@ -540,6 +606,42 @@ func syncVictim(res *core.Result, r *rand.Rand, nFrames int) {
 		}
 		if i%97 == 0 {
 			time.Sleep(time.Millisecond) // later signed timestamps
+		}
+		if i%60 == 59 {
+			// the victim itself asks the attacker something (keep-alive pong to the peer, routed pong, key setup);
+			// the attacker answers once, several times (separately signed) or with hostile bodies
+			switch r.IntN(3) {
+			case 0:
+				_, _, _ = V.Inst.RouterV.PingPong.Send(att.inst.IdentityV.IP, true, 0)
+			case 1:
+				_, _, _ = V.Inst.RouterV.PingPong.Send(att.inst.IdentityV.IP, false, 0)
+			default:
+				V.Inst.RouterV.HelloPing.VerifExpireHello(att.inst.IdentityV.IP)
+				_, _ = V.Inst.RouterV.HelloPing.Send(att.inst.IdentityV.IP)
+			}
+			var reqs [][]byte
+			for ms.Pending() > 0 {
+				reqs = append(reqs, ms.Take(0).Data)
+			}
+			for _, rq := range reqs {
+				hdr, mt, ok := pingOf(rq)
+				if !ok || hdr.FollowUp {
+					continue
+				}
+				for _, h := range att.answers(hdr, mt) {
+					ms.DeliverOn(&vmesh.Packet{From: 1, To: 0, Data: h.data}, 0, 1)
+					if len(ms.Panics) > 0 {
+						res.Violate("worker-panic:sync:"+h.kind, fmt.Sprintf("an answer of an authenticated peer to the victim's own %s request (%s) panicked the victim's worker: %v", hdr.PingType, h.kind, ms.Panics[0]),
+							map[string]any{"operator": h.kind, "frame": fmt.Sprintf("%x", h.data[:min(len(h.data), 600)]), "case_id": h.kind})
+						return
+					}
+					res.Case(fmt.Sprintf("sync-answer|%d|%s|%s", h.mtype, h.ptype, h.kind), true)
+					res.Count("answers_to_victim_requests", 1)
+					for ms.Pending() > 0 {
+						ms.Take(0)
+					}
+				}
+			}
 		}
 	}
 	res.Count("sync_frames", int64(nFrames))
@@ -951,6 +1053,29 @@ func asyncVictim(res *core.Result, r *rand.Rand, nFrames int) {
 			_ = link.SendPriority(f)
 		}
 	}
+	// answerRequest: the victim's own requests (keep-alive pongs, key setups) are answered 1..3 times, genuinely
+	// or with hostile bodies, once the attacker is set up.
+	var att *attacker
+	answered := 0
+	answerRequest := func(f frame.Frame) {
+		if att == nil {
+			return
+		}
+		d, err := f.FrameDataWithMargins(0, 0)
+		if err != nil {
+			return
+		}
+		hdr, mt, ok := pingOf(d)
+		if !ok || hdr.FollowUp || (hdr.PingType != "pong" && hdr.PingType != "hello") {
+			return
+		}
+		for _, h := range att.answers(hdr, mt) {
+			buf := make([]byte, 12+len(h.data)+16)
+			copy(buf[12:], h.data)
+			_ = link.SendPriority(&rawFrame{data: buf})
+			answered++
+		}
+	}
 	waitReply := func(pingType string, pingID uint64, d time.Duration) ([]byte, bool) {
 		deadline := time.After(d)
 		for {
@@ -968,6 +1093,7 @@ func asyncVictim(res *core.Result, r *rand.Rand, nFrames int) {
 						}
 					}
 				}
+				answerRequest(f)
 				f.ReturnToPool()
 			case <-deadline:
 				return nil, false
@@ -986,7 +1112,7 @@ func asyncVictim(res *core.Result, r *rand.Rand, nFrames int) {
 		res.Inconcl("async: end-to-end session with the victim did not come up")
 		return
 	}
-	att := &attacker{r: r, inst: mal.Inst, vIP: idV.IP, known: []netip.Addr{env.NewIdentity(r, nil).IP, env.NewIdentity(r, nil).IP}, label: []m.SwitchLabel{link.SwitchLabel(), 5, 300}}
+	att = &attacker{r: r, inst: mal.Inst, vIP: idV.IP, known: []netip.Addr{env.NewIdentity(r, nil).IP, env.NewIdentity(r, nil).IP}, label: []m.SwitchLabel{link.SwitchLabel(), 5, 300}}
 	sentinelOK := 0
 	var journal []hostile
 	check := func(upto int) bool {
@@ -1012,6 +1138,16 @@ func asyncVictim(res *core.Result, r *rand.Rand, nFrames int) {
 		h, ok := att.next()
 		if !ok {
 			continue
+		}
+		for drained := 0; drained < 20; drained++ {
+			select {
+			case f := <-mal.Upstream:
+				answerRequest(f)
+				f.ReturnToPool()
+				continue
+			default:
+			}
+			break
 		}
 		journal = append(journal, h)
 		if len(journal) > 200 {
@@ -1079,6 +1215,7 @@ func asyncVictim(res *core.Result, r *rand.Rand, nFrames int) {
 	res.Count("async_quiescent_stack_samples", 1)
 	res.Count("async_frames", int64(nFrames))
 	res.Count("async_sentinel_pongs_answered", int64(sentinelOK))
+	res.Count("async_answers_to_victim_requests", int64(answered))
 }
 
 // ---------- (c) post-handshake garbage on a wire link (real reader)
@@ -1293,6 +1430,7 @@ func run(c *core.Ctx) {
 	res.Assume("the synchronous part calls the same handler functions as the worker loops through the hooks VerifHandleFrame; the asynchronous part drives the real link reader and the real worker pools of a relay-only instance")
 	res.Assume("a double release is observed through the repository's own guard (it panics)")
 	res.Require(res.Counter("sync_frames") >= 1000, "too few synchronous frames")
+	res.Require(res.Counter("answers_to_victim_requests") >= 100, "too few answers to requests of the victim itself")
 	res.Require(res.Counter("handshake_hostile_steps") >= 50, "too few hostile handshake responses/acks delivered")
 	res.Require(res.Counter("async_sentinel_pongs_answered") >= 10, "too few sentinel pongs answered by the real instance")
 }
